@@ -8,12 +8,12 @@ import (
 	"errors"
 	"fmt"
 	"io"
-	"math"
 	"net"
 	"sync"
 	"time"
 
 	"github.com/pion/stun/v3"
+	"github.com/pion/transport/v4/deadline"
 	"github.com/pion/turn/v5/internal/proto"
 )
 
@@ -56,18 +56,18 @@ func NewUDPConn(config *AllocationConfig) *UDPConn {
 		closeCh:                make(chan struct{}),
 		bindingRefreshInterval: defaultBindingRefreshInterval,
 		allocation: allocation{
-			client:      config.Client,
-			relayedAddr: config.RelayedAddr,
-			serverAddr:  config.ServerAddr,
-			readTimer:   time.NewTimer(time.Duration(math.MaxInt64)),
-			permMap:     newPermissionMap(),
-			username:    config.Username,
-			realm:       config.Realm,
-			integrity:   config.Integrity,
-			_nonce:      config.Nonce,
-			_lifetime:   config.Lifetime,
-			net:         config.Net,
-			log:         config.Log,
+			client:       config.Client,
+			relayedAddr:  config.RelayedAddr,
+			serverAddr:   config.ServerAddr,
+			readDeadline: deadline.New(),
+			permMap:      newPermissionMap(),
+			username:     config.Username,
+			realm:        config.Realm,
+			integrity:    config.Integrity,
+			_nonce:       config.Nonce,
+			_lifetime:    config.Lifetime,
+			net:          config.Net,
+			log:          config.Log,
 		},
 	}
 
@@ -134,6 +134,16 @@ func NewUDPConn(config *AllocationConfig) *UDPConn {
 // see SetDeadline and SetReadDeadline.
 func (c *UDPConn) ReadFrom(p []byte) (n int, addr net.Addr, err error) {
 	for {
+		// A closed connection says so, whatever the read deadline.
+		if c.isClosed() {
+			return 0, nil, &net.OpError{
+				Op:   "read",
+				Net:  c.LocalAddr().Network(),
+				Addr: c.LocalAddr(),
+				Err:  errClosed,
+			}
+		}
+
 		select {
 		case ibData := <-c.readCh:
 			n := copy(p, ibData.data)
@@ -143,7 +153,7 @@ func (c *UDPConn) ReadFrom(p []byte) (n int, addr net.Addr, err error) {
 
 			return n, ibData.from, nil
 
-		case <-c.readTimer.C:
+		case <-c.readDeadline.Done():
 			return 0, nil, &net.OpError{
 				Op:   "read",
 				Net:  c.LocalAddr().Network(),
@@ -323,13 +333,9 @@ func (c *UDPConn) SetDeadline(t time.Time) error {
 // and any currently-blocked ReadFrom call.
 // A zero value for t means ReadFrom will not time out.
 func (c *UDPConn) SetReadDeadline(t time.Time) error {
-	var d time.Duration
-	if t.Equal(noDeadline()) {
-		d = time.Duration(math.MaxInt64)
-	} else {
-		d = time.Until(t)
-	}
-	c.readTimer.Reset(d)
+	// Once the deadline has passed every ReadFrom fails until a new deadline is set
+	// (net.Conn semantics); the zero time means no deadline.
+	c.readDeadline.Set(t)
 
 	return nil
 }
